@@ -392,6 +392,25 @@ def buildGroup (O : Oracle) (pv : PolicyVal) (filters : List Line) (annos : List
     | .error e => .error (.filter e)
     | .ok ms => .ok ⟨p, ms⟩
 
+/-- One group of the configuration. -/
+structure GroupDef where
+  pv : PolicyVal
+  filters : List Line
+  annos : List (List Param)
+
+/-- The whole `for _, group := range groups` loop: groups are built in configuration order over the
+SAME pool; the first failing group aborts. (The pool is a value here: that the real loop does not
+modify the shared node pool between groups is enforced by the tie — stream `c14ctl`, op `grps`.) -/
+def buildGroups (O : Oracle) (pool : List Node) : List GroupDef → Except GErr (List Group)
+  | [] => .ok []
+  | d :: ds =>
+    match buildGroup O d.pv d.filters d.annos pool with
+    | .error e => .error e
+    | .ok g =>
+      match buildGroups O pool ds with
+      | .error e => .error e
+      | .ok gs => .ok (g :: gs)
+
 inductive SelErr where
   | emptyGroup
   | outOfRange
@@ -407,5 +426,128 @@ def selectFixed {α : Type} (i : Int) (members : List α) : Except SelErr α :=
       match members[i.toNat]? with
       | some m => .ok m
       | none => .error .outOfRange
+
+/-! ## `time.ParseDuration` (Go 1.26 `time/format.go`), mirrored
+
+Used as the concrete duration oracle (`goDur`); the theorems above stay oracle-generic. The only part
+that is not integer arithmetic is the fraction: Go computes `uint64(float64(f) * (float64(unit) /
+scale))` in IEEE double arithmetic; the model uses Lean's `Float` (the same IEEE doubles, opaque to
+the kernel), so theorems speak about fraction-free inputs and the tie carries the fractions. -/
+
+def isDigit (c : Nat) : Bool := 48 ≤ c && c ≤ 57
+
+/-- `leadingInt`: `none` = overflow error. -/
+def leadingInt : Str → Nat → Option (Nat × Str)
+  | [], x => some (x, [])
+  | c :: cs, x =>
+    if isDigit c then
+      if x > 2 ^ 63 / 10 then none
+      else
+        let x' := x * 10 + (c - 48)
+        if x' > 2 ^ 63 then none else leadingInt cs x'
+    else some (x, c :: cs)
+
+/-- `leadingFraction`: never fails, stops accumulating precision on overflow. -/
+def leadingFraction : Str → Nat → Float → Bool → Nat × Float × Str
+  | [], x, scale, _ => (x, scale, [])
+  | c :: cs, x, scale, overflow =>
+    if isDigit c then
+      if overflow then leadingFraction cs x scale true
+      else if x > (2 ^ 63 - 1) / 10 then leadingFraction cs x scale true
+      else
+        let y := x * 10 + (c - 48)
+        if y > 2 ^ 63 then leadingFraction cs x scale true
+        else leadingFraction cs y (scale * 10) false
+    else (x, scale, c :: cs)
+
+/-- the unit: everything up to the next `.` or digit -/
+def spanUnit : Str → Str × Str
+  | [] => ([], [])
+  | c :: cs =>
+    if c = 46 || isDigit c then ([], c :: cs)
+    else let (u, r) := spanUnit cs; (c :: u, r)
+
+/-- `unitMap` -/
+def unitOf (u : Str) : Option Nat :=
+  if u = [110, 115] then some 1                       -- ns
+  else if u = [117, 115] then some 1000               -- us
+  else if u = [194, 181, 115] then some 1000          -- µs (U+00B5)
+  else if u = [206, 188, 115] then some 1000          -- μs (U+03BC)
+  else if u = [109, 115] then some 1000000            -- ms
+  else if u = [115] then some 1000000000              -- s
+  else if u = [109] then some 60000000000             -- m
+  else if u = [104] then some 3600000000000           -- h
+  else none
+
+/-- the fraction's contribution `uint64(float64(f) * (float64(unit) / scale))` -/
+def fracPart (f unit : Nat) (scale : Float) : Nat :=
+  ((UInt64.ofNat f).toFloat * ((UInt64.ofNat unit).toFloat / scale)).toUInt64.toNat
+
+/-- the `for s != ""` loop; `d` = nanoseconds so far. `fuel` bounds the number of terms (each term
+consumes at least its unit). -/
+def durTerms : Nat → Str → Nat → Option Nat
+  | 0, _, _ => none
+  | _ + 1, [], d => some d
+  | fuel + 1, c :: cs, d =>
+    if !(c = 46 || isDigit c) then none
+    else
+      match leadingInt (c :: cs) 0 with
+      | none => none
+      | some (v, s1) =>
+        let pre := s1.length != (c :: cs).length
+        let (f, scale, s2, post) :=
+          match s1 with
+          | 46 :: r =>
+            let (f, scale, s2) := leadingFraction r 0 1 false
+            (f, scale, s2, s2.length != r.length)
+          | _ => (0, (1 : Float), s1, false)
+        if !pre && !post then none
+        else
+          let (u, s3) := spanUnit s2
+          if u.isEmpty then none
+          else
+            match unitOf u with
+            | none => none
+            | some unit =>
+              if v > 2 ^ 63 / unit then none
+              else
+                let v1 := v * unit
+                let v2 := if f > 0 then v1 + fracPart f unit scale else v1
+                if f > 0 && v2 > 2 ^ 63 then none
+                else
+                  let d' := d + v2
+                  if d' > 2 ^ 63 then none else durTerms fuel s3 d'
+
+/-- `time.ParseDuration`: nanoseconds, `none` = error. -/
+def parseDuration (s : Str) : Option Int :=
+  let (neg, body) :=
+    match s with
+    | 45 :: r => (true, r)
+    | 43 :: r => (false, r)
+    | _ => (false, s)
+  if body = [48] then some 0
+  else if body.isEmpty then none
+  else
+    match durTerms (body.length + 1) body 0 with
+    | none => none
+    | some d =>
+      if neg then some (-(d : Int))
+      else if d > 2 ^ 63 - 1 then none else some (d : Int)
+
+/-- The concrete world of the Go build: any regex engine, the mirrored `time.ParseDuration`. -/
+def goOracle (re : Str → Option (Str → Bool)) : Oracle := ⟨re, parseDuration⟩
+
+/-! ## `strconv.Atoi`, declaratively -/
+
+/-- value of a list of decimal digits (most significant first) -/
+def decVal (ds : List Nat) : Nat := ds.foldl (fun a d => a * 10 + d) 0
+
+/-- `s` is the decimal notation of the int64 `i`: optional sign, at least one digit `0..9`,
+nothing else, value within int64. -/
+def DecimalInt64 (s : Str) (i : Int) : Prop :=
+  ∃ (sign : Str) (ds : List Nat), (sign = [] ∨ sign = [43] ∨ sign = [45]) ∧ ds ≠ [] ∧
+    (∀ d ∈ ds, d < 10) ∧ s = sign ++ ds.map (· + 48) ∧
+    i = (if sign = [45] then -(decVal ds : Int) else (decVal ds : Int)) ∧
+    -(2 ^ 63 : Int) ≤ i ∧ i < 2 ^ 63
 
 end DaeVerif.C14
